@@ -435,11 +435,23 @@ class Interp:
             if not any(isinstance(a, tuple) and a[0] in ("unk",) for a in pre_val[x].atoms()):
                 cands.append((f"{x}>=init", cmp_cond(">=", lv[x], pre_val[x]), ("ge0", x)))
                 cands.append((f"{x}<=init", cmp_cond("<=", lv[x], pre_val[x]), ("le0", x)))
+        # two cursors started one outside each end of a range (lo = last + 1, hi = first - 1) stay on their own side of the other's start:
+        # x >= init(y) + 1,  x <= init(y) - 1
+        clean = [x for x in names if not any(isinstance(a, tuple) and a[0] in ("unk",) for a in pre_val[x].atoms())]
+        for x in clean:
+            for y in clean:
+                if x != y and len(clean) <= 5:
+                    cands.append((f"{x}>=init({y})+1", cmp_cond(">=", lv[x], pre_val[y] + ONE), ("geo", x, y)))
+                    cands.append((f"{x}<=init({y})-1", cmp_cond("<=", lv[x], pre_val[y] - ONE), ("leo", x, y)))
         # initially true?
         alive = []
         for desc, c, b in cands:
             if b[0] == "le":
                 ok0 = pre.facts.decide(cmp_cond("<=", pre_val[b[1]], pre_val[b[2]])) is True
+            elif b[0] == "geo":
+                ok0 = pre.facts.decide(cmp_cond(">=", pre_val[b[1]], pre_val[b[2]] + ONE)) is True
+            elif b[0] == "leo":
+                ok0 = pre.facts.decide(cmp_cond("<=", pre_val[b[1]], pre_val[b[2]] - ONE)) is True
             else:
                 ok0 = True
             if ok0:
@@ -461,6 +473,10 @@ class Interp:
                         return self.scalar(bp.state, v) if v is not None else lv[nm]
                     if b[0] == "le":
                         q = cmp_cond("<=", endv(b[1]), endv(b[2]))
+                    elif b[0] == "geo":
+                        q = cmp_cond(">=", endv(b[1]), pre_val[b[2]] + ONE)
+                    elif b[0] == "leo":
+                        q = cmp_cond("<=", endv(b[1]), pre_val[b[2]] - ONE)
                     elif b[0] == "ge0":
                         q = cmp_cond(">=", endv(b[1]), pre_val[b[1]])
                     else:
